@@ -276,8 +276,11 @@ def gen_ops(rng, spec, n_ops, *, allow_inplace=True, allow_flows=True, allow_ste
             ops.append(["flow", si, sysi, rng.choice(["h1", "h2"] if not constrained else ["h1"]), rng.choice([0.1, -0.2, 0.35])])
         elif r < 0.96 and allow_steps:
             ops.append(["step", si, sysi])
-        elif allow_steps:
+        elif allow_steps and rng.random() < 0.5:
             ops.append(["transition", si, sysi, rng.getrandbits(30)])
+        elif allow_steps:
+            # momentum transition (independent, partial refresh, no refresh) on a state that may hold cached values
+            ops.append(["momtrans", si, sysi, rng.choice([1.0, 0.5, 0.9, 0.0]), rng.getrandbits(30)])
         else:
             ops.append(["call", si, sysi, rng.choice(meths)])
     return ops
@@ -507,6 +510,19 @@ class Machine:
                         new = self.integrators[op[2]].step(state)
                         self._add(new, False, set())
                     except mici.errors.IntegratorError:
+                        self.skipped += 1
+                elif kind == "momtrans":
+                    if ro:
+                        self.skipped += 1
+                        continue
+                    system = self.systems[op[2]]
+                    T = mici.transitions
+                    mt = T.IndependentMomentumTransition(system) if op[3] == 1.0 else T.CorrelatedMomentumTransition(system, op[3])
+                    try:
+                        new, _ = mt.sample(state, np.random.default_rng(op[4]))
+                        self.states[si] = new
+                        self.has[si] = set()
+                    except (mici.errors.Error, ValueError, np.linalg.LinAlgError):
                         self.skipped += 1
                 elif kind == "transition":
                     if ro:
